@@ -357,6 +357,15 @@ def decl_syntax_correspondence(ctx, model, toks_src, toks_out, src):
             want = "D " + D.collapse_locals(blocks[names]) + " | roundtrip-ok"
             if rep != want:
                 ctx.corr_problems.append(("decl-syntax", f"LOCAL block {names}: exppp `{want[2:]}` vs model `{rep[2:]}`", src)); return
+        eo = D.entity_slices(toks_out)
+        for key, e in D.parse_schema(toks_src)["decls"].items():
+            if key[0] != "entity":
+                continue
+            rep = model.ask("entity " + D.enc_entity(key[1], e))
+            ctx.hist("correspondence", "declaration syntax: entity")
+            want = "D " + D.collapse_entity(eo[key[1]]) + " | roundtrip-ok"
+            if rep != want:
+                ctx.corr_problems.append(("decl-syntax", f"ENTITY {key[1]}: exppp `{want[2:]}` vs model `{rep[2:]}`", src)); return
     except (D.DeclError, KeyError, IndexError) as ex:
         ctx.corr_problems.append(("decl-syntax", f"cannot compare declaration syntax: {type(ex).__name__} {ex}", src))
 
